@@ -4,6 +4,7 @@ import (
 	"strings"
 
 	"github.com/pb33f/libopenapi/datamodel/high/base"
+	v3 "github.com/pb33f/libopenapi/datamodel/high/v3"
 	"google.golang.org/protobuf/compiler/protogen"
 	"google.golang.org/protobuf/reflect/protoreflect"
 	"google.golang.org/protobuf/types/descriptorpb"
@@ -610,4 +611,76 @@ func VerifC06Builtin() {
 	verif.Assert("C06/builtin/validation-error-form-validates", e.valid(e.root("ValidationError"), vdoc, 0))
 	verif.Assert("C06/builtin/validation-error-keys-described", e.allDescribed(e.root("ValidationError"), vdoc))
 	verif.Reach("C06/builtin/decided")
+}
+
+// VerifC06Parameters: the schema published for a path variable / query parameter accepts the
+// text the clients put in the URL for a field of that kind (OpenAPI parameter values are
+// text that is read according to the schema type): decimal text for 32-bit integers
+// (integer), decimal text for 64-bit integers (string, as in proto3 JSON), true/false
+// (boolean), a decimal number (number), arbitrary text (string); query parameters carry the
+// declared required flag.
+func VerifC06Parameters() {
+	kinds := []protoreflect.Kind{protoreflect.StringKind, protoreflect.BoolKind, protoreflect.Int32Kind, protoreflect.Sint32Kind, protoreflect.Uint32Kind,
+		protoreflect.Int64Kind, protoreflect.Uint64Kind, protoreflect.Sfixed64Kind, protoreflect.FloatKind, protoreflect.DoubleKind, protoreflect.Fixed32Kind, protoreflect.Sfixed32Kind}
+	want := func(k protoreflect.Kind) string {
+		switch k {
+		case protoreflect.BoolKind:
+			return "boolean"
+		case protoreflect.Int32Kind, protoreflect.Sint32Kind, protoreflect.Uint32Kind, protoreflect.Fixed32Kind, protoreflect.Sfixed32Kind:
+			return "integer"
+		case protoreflect.FloatKind, protoreflect.DoubleKind:
+			return "number"
+		}
+		return "string" // text, and 64-bit integers in their proto3 JSON string form
+	}
+	pk := kinds[verif.Choice("path.kind", len(kinds))]
+	qk := kinds[verif.Choice("query.kind", len(kinds))]
+	req := c06Msg("Req")
+	c06Add(req, &verif.FieldDesc{FName: "item_id", FJSON: "itemId", FKind: pk})
+	qo := &descriptorpb.FieldOptions{}
+	qreq := verif.Bool("query.required")
+	qname := verif.StringIn("query.name", 4, "a-z_")
+	verif.Assume(qname != "")
+	verif.SetExt(qo, http.E_Query, &http.QueryConfig{Name: qname, Required: qreq})
+	c06Add(req, &verif.FieldDesc{FName: "limit", FJSON: "limit", FKind: qk, FOpts: qo})
+	resp := c06Msg("Resp")
+	svc := verif.NewService("acme.v1", "ItemService", &descriptorpb.ServiceOptions{})
+	mo := &descriptorpb.MethodOptions{}
+	verb := http.HttpMethod_HTTP_METHOD_GET
+	if verif.Bool("verb.delete") {
+		verb = http.HttpMethod_HTTP_METHOD_DELETE
+	}
+	verif.SetExt(mo, http.E_Config, &http.HttpConfig{Path: "/items/{item_id}", Method: verb})
+	m := verif.NewMethod(svc, "GetItem", "GetItem", req, resp, mo)
+	g := NewGenerator(FormatYAML)
+	g.processMethod(svc, m)
+	nPath, nQuery := 0, 0
+	for pair := g.doc.Paths.PathItems.First(); pair != nil; pair = pair.Next() {
+		for _, op := range []*v3.Operation{pair.Value().Get, pair.Value().Delete} {
+			if op == nil {
+				continue
+			}
+			for _, p := range op.Parameters {
+				s := (&c06Eval{g: g}).resolve(p.Schema)
+				typ := ""
+				if s != nil && len(s.Type) == 1 {
+					typ = s.Type[0]
+				}
+				switch p.In {
+				case "path":
+					nPath++
+					verif.Show("pathType", typ)
+					verif.Assert("C06/params/path-schema-accepts-the-text-sent", p.Name == "item_id" && typ == want(pk))
+					verif.Assert("C06/params/path-parameter-required", p.Required != nil && *p.Required)
+				case "query":
+					nQuery++
+					verif.Show("queryType", typ)
+					verif.Assert("C06/params/query-schema-accepts-the-text-sent", p.Name == qname && typ == want(qk))
+					verif.Assert("C06/params/query-required-flag-published", p.Required != nil && *p.Required == qreq)
+				}
+			}
+		}
+	}
+	verif.Assert("C06/params/one-path-one-query-parameter", nPath == 1 && nQuery == 1)
+	verif.Reach("C06/params/decided")
 }
